@@ -232,3 +232,36 @@ Proof.
   rewrite !isort_map. apply (isort_perm_eq bcmp bcmp_antisym bcmp_trans bcmp_eq).
   apply Permutation_map. exact HP.
 Qed.
+
+(* ------------------------------------------------------------------ sortResults on findings *)
+Definition fkey (f : finding) : list N * list N := (f_ref f, f_extra f).
+Definition fkcmp (a b : list N * list N) : comparison := cmp_or (bcmp (fst a) (fst b)) (bcmp (snd a) (snd b)).
+
+Lemma fkcmp_antisym a b : fkcmp b a = CompOpp (fkcmp a b).
+Proof. unfold fkcmp. rewrite cmp_or_opp, <- !bcmp_antisym. reflexivity. Qed.
+
+Lemma fkcmp_trans a b c : fkcmp a b <> Gt -> fkcmp b c <> Gt -> fkcmp a c <> Gt.
+Proof. unfold fkcmp. apply lex_step. apply bcmp_trans. Qed.
+
+Lemma fkcmp_eq a b : fkcmp a b = Eq -> a = b.
+Proof.
+  destruct a as [a1 a2], b as [b1 b2]. unfold fkcmp, cmp_or. cbn [fst snd].
+  destruct (bcmp a1 b1) eqn:E1; try discriminate. intros E2. apply bcmp_eq in E1, E2. congruence.
+Qed.
+
+(* whatever order the detectors' findings arrive in, the emitted list is sorted by cmpFindings and carries the
+   same sequence of (reference, extra) keys *)
+Theorem sort_findings_canonical fs fs' :
+  Permutation fs fs' -> map fkey (sort_findings fs) = map fkey (sort_findings fs').
+Proof.
+  intros HP. unfold sort_findings.
+  change (isort cmp_findings) with (isort (fun a b => fkcmp (fkey a) (fkey b))).
+  rewrite !isort_map. apply (isort_perm_eq fkcmp fkcmp_antisym fkcmp_trans fkcmp_eq).
+  apply Permutation_map. exact HP.
+Qed.
+
+Lemma cmp_findings_antisym a b : cmp_findings b a = CompOpp (cmp_findings a b).
+Proof. apply (fkcmp_antisym (fkey a) (fkey b)). Qed.
+
+Theorem sort_findings_sorted fs : sorted_b cmp_findings (sort_findings fs) = true.
+Proof. apply isort_sorted_gen. apply cmp_findings_antisym. Qed.
